@@ -149,14 +149,14 @@ Definition encoding_of_name (n : string) : option encoding :=
 (* ---- correspondence ---------------------------------------------------------------------------- *)
 (* Long streams are written by the harness as segments: a stretch of the filler pattern
    (byte i of a stretch starting at phase a is 'a' + (a+i) mod 23) or literal bytes. *)
-Inductive seg := SFill (phase : N) (len : nat) | SLit (b : bytes).
+Inductive seg := SFill (phase : N) (len : N) | SLit (b : bytes).
 Fixpoint fill (phase : N) (len : nat) : bytes :=
   match len with
   | O => []
   | S k => byte_of_N (97 + phase mod 23) :: fill (phase + 1) k
   end.
 Definition expand (l : list seg) : bytes :=
-  flat_map (fun s => match s with SFill a n => fill a n | SLit b => b end) l.
+  flat_map (fun s => match s with SFill a n => fill a (N.to_nat n) | SLit b => b end) l.
 
 Inductive c18case :=
   (* rune decoded by WrapEncoding(enc) from each single byte 0..255 (observed through x/text) *)
